@@ -63,26 +63,47 @@ struct Obs {
     publishes_for_f: u32,
 }
 
-fn expected(root: &Path, files: &[String], spec: &WsSpec, f: &str, ftext: &str) -> MapSnap {
+fn expected(root: &Path, files: &[String], spec: &WsSpec, f: &str, ftext: &str, f_open: bool) -> MapSnap {
     let db = FixtureDatabase::new();
-    // F is an open document and is analysed first: following another file's import must never pick up F's on-disk text
-    // (nor the modules only that older text imports)
-    db.document_opened(&root.join(f));
-    if rustpython_parser::parse(ftext, rustpython_parser::Mode::Module, "").is_err() {
-        // a buffer that does not parse leaves the last valid version in effect: the file on disk
-        if let Some(pf) = spec.file(f) {
-            db.analyze_file(root.join(f), &render(&pf.items).text);
+    if f_open {
+        // F is an open document and is analysed first: following another file's import must never pick up F's on-disk text
+        // (nor the modules only that older text imports)
+        db.document_opened(&root.join(f));
+        if rustpython_parser::parse(ftext, rustpython_parser::Mode::Module, "").is_err() {
+            // a buffer that does not parse leaves the last valid version in effect: the file on disk
+            if let Some(pf) = spec.file(f) {
+                db.analyze_file(root.join(f), &render(&pf.items).text);
+            }
         }
+        db.analyze_file(root.join(f), ftext);
     }
-    db.analyze_file(root.join(f), ftext);
+    // (a document that was opened and closed again is a file like any other: indexed if the scan reaches it)
     for rf in files {
-        if rf != f {
+        if rf != f || !f_open {
             if let Some(pf) = spec.file(rf) {
                 db.analyze_file(root.join(rf), &render(&pf.items).text);
             }
         }
     }
     map_snap(&db, root)
+}
+
+/// The files (workspace-relative) a scan that meets no notification indexes or caches, with F in its final state.
+fn reachable_files(root: &Path, spec: &WsSpec, f: &str, ftext: &str, open: bool) -> Vec<String> {
+    let db = FixtureDatabase::new();
+    if open {
+        db.document_opened(&root.join(f));
+        if rustpython_parser::parse(ftext, rustpython_parser::Mode::Module, "").is_err() {
+            if let Some(pf) = spec.file(f) {
+                db.analyze_file(root.join(f), &render(&pf.items).text);
+            }
+        }
+        db.analyze_file(root.join(f), ftext);
+    }
+    db.scan_workspace(root);
+    let mut v: Vec<String> = db.file_cache.iter().map(|e| rel(root, e.key())).collect();
+    v.sort();
+    v
 }
 
 impl Scenario for ScanEdit {
@@ -112,7 +133,7 @@ impl Scenario for ScanEdit {
         o.file.in_class = false;
         o.max_dirs = 3;
         o.n_names = rng.range(2, 4);
-        o.imports = rng.chance(300);
+        o.imports = rng.chance(450);
         o.colliding_imports = false;
         let spec = gen_ws(&mut rng, &o);
         let mut spec = spec;
@@ -133,19 +154,41 @@ impl Scenario for ScanEdit {
         }
         let names = names_pool(o.n_names);
         let cands: Vec<String> = spec.files.iter().filter(|f| f.rel.ends_with("conftest.py") || f.rel.rsplit('/').next().map(|n| n.starts_with("test_") || n.ends_with("_test.py")).unwrap_or(false)).map(|f| f.rel.clone()).collect();
-        let file = if plugin_variant { "conftest.py".to_string() } else if cands.is_empty() { "test_new.py".to_string() } else { rng.pick(&cands).clone() };
+        // helper modules the walk does not visit: indexed only because a conftest / test module imports them
+        let helpers: Vec<String> = {
+            use super::pytext::Item;
+            let mut v: Vec<String> = vec![];
+            for f in spec.files.iter().filter(|f| cands.contains(&f.rel)) {
+                for it in &f.items {
+                    let ts: Vec<String> = match it {
+                        Item::Star { target: Some(t), .. } | Item::Import { target: Some(t), .. } => vec![t.clone()],
+                        Item::Plugins { targets, .. } => targets.iter().flatten().cloned().collect(),
+                        _ => vec![],
+                    };
+                    for t in ts {
+                        if !cands.contains(&t) && !t.starts_with('.') && !t.ends_with("__init__.py") && spec.file(&t).is_some() && !v.contains(&t) {
+                            v.push(t);
+                        }
+                    }
+                }
+            }
+            v
+        };
+        let helper_raced = !plugin_variant && !helpers.is_empty() && rng.chance(300);
+        let file = if plugin_variant { "conftest.py".to_string() } else if helper_raced { rng.pick(&helpers).clone() } else if cands.is_empty() { "test_new.py".to_string() } else { rng.pick(&cands).clone() };
+        let is_test_module = !file.ends_with("conftest.py") && !helper_raced;
         // the raced document carries more fixtures than the others: longer cleanup and recording phases
         let go = GenOpts { in_class: false, max_fixtures: 6, dup_names: false, ..GenOpts::default() };
         if let Some(pf) = spec.files.iter_mut().find(|f| f.rel == file) {
             if rng.chance(600) {
                 let keep: Vec<super::pytext::Item> = pf.items.iter().filter(|i| matches!(i, super::pytext::Item::Star { .. } | super::pytext::Item::Import { .. } | super::pytext::Item::Plugins { .. })).cloned().collect();
                 let mut items = keep;
-                items.extend(gen_items(&mut rng, &names_pool(6), !file.ends_with("conftest.py"), &go));
+                items.extend(gen_items(&mut rng, &names_pool(6), is_test_module, &go));
                 pf.items = items;
             }
         }
-        let buffer = render(&gen_items(&mut rng, &names_pool(6), !file.ends_with("conftest.py"), &go)).text;
-        let second = render(&gen_items(&mut rng, &names, !file.ends_with("conftest.py"), &go)).text;
+        let buffer = render(&gen_items(&mut rng, &names_pool(6), is_test_module, &go)).text;
+        let second = render(&gen_items(&mut rng, &names, is_test_module, &go)).text;
         let mut sim = SimParams::gen(&mut rng, 4000);
         sim.max_steps = 20_000_000;
         let delay = match rng.below(4) {
@@ -169,7 +212,8 @@ impl Scenario for ScanEdit {
         }
         let via_symlink = rng.chance(150);
         // the user is in the middle of typing: the buffer does not parse (the file on disk is its last valid version)
-        let buffer = if kind != "openclose" && rng.chance(150) { super::pytext::break_syntax(&mut rng, &spec.file(&file).map(|pf| render(&pf.items).text).unwrap_or_else(|| buffer.clone())) } else { buffer };
+        // (an open+close of a half-typed document: 2 in 5)
+        let buffer = if rng.chance(if kind == "openclose" { 400 } else { 150 }) { super::pytext::break_syntax(&mut rng, &spec.file(&file).map(|pf| render(&pf.items).text).unwrap_or_else(|| buffer.clone())) } else { buffer };
         serde_json::to_value(ScanEditInput { spec, sim, file, buffer, kind: kind.into(), delay, aim, second, run_seed, sandbox: None, via_symlink }).unwrap()
     }
 
@@ -242,7 +286,28 @@ impl Scenario for ScanEdit {
         out.state_hash = a.hash();
         // (the expected index is built without a venv scan: plugin / third-party flags are not compared here)
         let a = a.without_origin_flags();
-        let want = expected(&root, &obs.cached_files, &inp.spec, &inp.file, &inp.buffer).without_origin_flags();
+        // a document that was opened and closed again is, in the end, the file on disk
+        let disk_text = inp.spec.file(&inp.file).map(|pf| render(&pf.items).text).unwrap_or_else(|| "import pytest\n".to_string());
+        let final_text = if inp.kind == "openclose" { disk_text.as_str() } else { inp.buffer.as_str() };
+        // which files the index must cover does not depend on the race: whatever the server cached, plus everything a
+        // scan without any notification reaches (a module the raced run never got to is a lost module, not a smaller workspace)
+        let mut files = obs.cached_files.clone();
+        let reach = reachable_files(&root, &inp.spec, &inp.file, final_text, inp.kind != "openclose");
+        if inp.kind == "openclose" && !reach.contains(&inp.file) {
+            // a file no scan reaches (its only import is one the analyser deliberately ignores) that was opened and closed:
+            // whether its records stay is the business of C07's known finding about merely opened files, not of this check
+            out.count("probe.openclose_of_a_file_no_scan_reaches_skipped", 1);
+            out.nontrivial = false;
+            return out;
+        }
+        for n in reach {
+            if !files.contains(&n) {
+                out.count("probe.file_reached_by_plain_scan_but_not_cached_by_raced_run", 1);
+                files.push(n);
+            }
+        }
+        files.sort();
+        let want = expected(&root, &files, &inp.spec, &inp.file, final_text, inp.kind != "openclose").without_origin_flags();
         if let Some(d) = a.diff(&want, false) {
             // class: records of two versions of F, and nothing else
             let only_f = {
@@ -277,7 +342,7 @@ impl Scenario for ScanEdit {
         // clause 2
         if let Some(b) = obs.after_second {
             let b = b.without_origin_flags();
-            let want2 = expected(&root, &obs.cached_files, &inp.spec, &inp.file, &inp.second).without_origin_flags();
+            let want2 = expected(&root, &files, &inp.spec, &inp.file, &inp.second, true).without_origin_flags();
             if let Some(d) = b.diff(&want2, false) {
                 out.violate("scanedit-not-restored", format!("one further didChange({}) did not restore the single-analysis state: {}", inp.file, d));
             } else if obs.cache_text2.as_deref() != Some(inp.second.as_str()) {
